@@ -49,7 +49,9 @@ Steps == {<<3, 4>>, <<4, 3>>, <<-3, 4>>, <<5, 12>>, <<6, -8>>, <<7, 0>>, <<0, 5>
 (* longer paths, and closed ones (the last vertex repeats the first) *)
 LongSteps == { << <<7, 0>>, <<0, 5>>, <<-7, 0>>, <<0, -5>> >>, << <<3, 4>>, <<-3, 4>>, <<-3, -4>>, <<3, -4>> >>,
                << <<3, 4>>, <<4, 3>>, <<5, 12>>, <<6, -8>>, <<0, -2>>, <<8, 6>> >>, << <<8, 6>>, <<-8, -6>> >>,
-               << <<0, 5>>, <<0, 5>>, <<7, 0>>, <<-4, -3>>, <<-3, 4>> >> }
+               << <<0, 5>>, <<0, 5>>, <<7, 0>>, <<-4, -3>>, <<-3, 4>> >>,
+               (* a vertex repeated in place (a segment of length zero) at the start, in the middle, at the end *)
+               << <<0, 0>>, <<7, 0>>, <<0, 5>> >>, << <<3, 4>>, <<0, 0>>, <<4, 3>> >>, << <<6, -8>>, <<0, 5>>, <<0, 0>> >>, << <<0, 0>> >> }
 PathFrom(p0, st) == LET RECURSIVE P(_, _)
                         P(i, cur) == IF i > Len(st) THEN <<cur>> ELSE <<cur>> \o P(i + 1, <<cur[1] + st[i][1], cur[2] + st[i][2]>>)
                     IN P(1, p0)
